@@ -464,14 +464,37 @@ FRAGMENTS = {
 }
 
 
+def _load_plugins():
+    """Every module harness/gen/<name>.py may define FRAGMENTS = {"LeanModuleName": fn} (fn() -> (lean text, info))."""
+    import importlib
+    import pkgutil
+    try:
+        import harness.gen as pkg
+    except ImportError:
+        return
+    for m in sorted(pkgutil.iter_modules(pkg.__path__), key=lambda m: m.name):
+        mod = importlib.import_module("harness.gen." + m.name)
+        for k, fn in getattr(mod, "FRAGMENTS", {}).items():
+            FRAGMENTS.setdefault(k, fn)
+
+
 def regenerate(only=None):
-    """Regenerate Gen/*.lean.  Returns {name: info}.  Raises TranslateError."""
+    """Regenerate Gen/*.lean.  Returns ({name: info}, {name: TranslateError}); a fragment that cannot be
+    translated keeps its previous file and is reported (a broken correspondence for the properties using it)."""
     os.makedirs(GEN_DIR, exist_ok=True)
-    infos = {}
+    _load_plugins()
+    infos, errors = {}, {}
     for name, fn in FRAGMENTS.items():
         if only and name not in only:
             continue
-        text, info = fn()
+        try:
+            text, info = fn()
+        except TranslateError as e:
+            errors[name] = e
+            continue
+        except Exception as e:  # an unexpected shape deep inside a matcher
+            errors[name] = TranslateError(name, f"{type(e).__name__}: {e}")
+            continue
         path = os.path.join(GEN_DIR, name + ".lean")
         old = open(path).read() if os.path.exists(path) else None
         if old != text:
@@ -480,14 +503,15 @@ def regenerate(only=None):
         info["changed"] = old != text
         info["gen_hash"] = _h(text)
         infos[name] = info
-    return infos
+    return infos, errors
 
 
 if __name__ == "__main__":
     import json
     import sys
-    try:
-        print(json.dumps(regenerate(sys.argv[1:] or None), indent=1, default=str))
-    except TranslateError as e:
-        print("TranslateError:", e)
-        sys.exit(3)
+    sys.path.insert(0, os.path.dirname(os.path.dirname(os.path.abspath(__file__))))
+    infos, errors = regenerate(sys.argv[1:] or None)
+    print(json.dumps(infos, indent=1, default=str))
+    for k, e in errors.items():
+        print("TranslateError:", k, e)
+    sys.exit(3 if errors else 0)
